@@ -514,12 +514,13 @@ the link whether or not the peer's port is open) -/
 def sendOk (w : World) (side : Side) (ip : Nat) : Bool :=
   ip == (w.get side.other).addr && (w.get side).n.isOn && (w.get side.other).n.isOn
 
-inductive BrowseOut | ret (b : Bool) | raised
+/-- the answer of `get_webpage` (it no longer raises: a node without dns-client cannot resolve names, literal addresses still work) -/
+inductive BrowseOut | ret (b : Bool)
 deriving DecidableEq, Repr
 
 /-- `WebBrowser.get_webpage(url)` on object `u` of node `side` (`url` = the argument or `config.target_url`):
 guard; `latest_response := 404`; the host is looked up through the node's DNS client (`check_domain_exists`, with the traffic
-that causes) — an unresolved host is still tried as an IPv4 literal; the GET goes to port 80 (or the URL's port) and, being
+that causes; a node whose dns-client was uninstalled asks nobody) — an unresolved host is still tried as an IPv4 literal; the GET goes to port 80 (or the URL's port) and, being
 delivered synchronously, its response is in `latest_response` when `send` returns; `history` records LOADED with that code,
 or SERVER_UNREACHABLE when the frame could not be sent; True iff the code is 200. -/
 def browse (w : World) (side : Side) (u : Nat) (url : Option Url) : World × BrowseOut :=
@@ -530,29 +531,31 @@ def browse (w : World) (side : Side) (u : Nat) (url : Option Url) : World × Bro
     match url with
     | none => (w0, .ret false)
     | some url =>
-      match dget "dns-client" (w0.get side).n.software with
-      | none => (w0, .raised)                       -- `dns_client.check_domain_exists` on None
-      | some dc =>
-        let (w1, found) := w0.dnsQuery side dc url.host.text
-        let ip : Option Nat :=
-          if found then (w1.get side).dnsCached dc url.host.text
-          else match url.host with
-            | .addr a _ => some a
-            | .name _ => none
-        match ip with
-        | none => (w1, .ret false)
-        | some ip =>
-          let port := url.port.getD 80
-          let ok := w1.sendOk side ip
-          let w2 := if (w1.get side).n.handles u then w1.send side u ip port 1 (.httpReq .get url.path url.id) else w1
-          match dget u (w2.get side).data with
-          | some (.webBrowser latest hist2 tgt2) =>
-            if ok && (w1.get side).n.handles u then
-              let code : Option Nat := latest.getD none
-              (w2.set side ((w2.get side).setData u (.webBrowser latest (hist2 ++ [(url.id, some code)]) tgt2)), .ret (code == some 200))
-            else
-              (w2.set side ((w2.get side).setData u (.webBrowser latest (hist2 ++ [(url.id, none)]) tgt2)), .ret false)
-          | _ => (w2, .ret false)
+      -- `dns_client is not None and dns_client.check_domain_exists(hostname)`: without a dns-client nothing is asked
+      let dcOpt := dget "dns-client" (w0.get side).n.software
+      let (w1, found) := match dcOpt with
+        | none => (w0, false)
+        | some dc => w0.dnsQuery side dc url.host.text
+      let ip : Option Nat :=
+        match dcOpt, found with
+        | some dc, true => (w1.get side).dnsCached dc url.host.text
+        | _, _ => match url.host with
+          | .addr a _ => some a
+          | .name _ => none
+      match ip with
+      | none => (w1, .ret false)
+      | some ip =>
+        let port := url.port.getD 80
+        let ok := w1.sendOk side ip
+        let w2 := if (w1.get side).n.handles u then w1.send side u ip port 1 (.httpReq .get url.path url.id) else w1
+        match dget u (w2.get side).data with
+        | some (.webBrowser latest hist2 tgt2) =>
+          if ok && (w1.get side).n.handles u then
+            let code : Option Nat := latest.getD none
+            (w2.set side ((w2.get side).setData u (.webBrowser latest (hist2 ++ [(url.id, some code)]) tgt2)), .ret (code == some 200))
+          else
+            (w2.set side ((w2.get side).setData u (.webBrowser latest (hist2 ++ [(url.id, none)]) tgt2)), .ret false)
+        | _ => (w2, .ret false)
   | _ => (w, .ret false)
 
 /-- an injected frame as if from the peer: through `HostNode.receive_frame` (`viaHost`) or straight into
